@@ -253,7 +253,7 @@ class C11(Cfg):
             "unrelated elements); 4 lookups each with / without extended header; non-trivial = at least one frame loaded; "
             "distinct by request")
     observable = "canonical sorted metadata (keyed map and id map with every field) or none, and the lookup results"
-    explanation = ("C11_load / C11_load_gapped (loader on rendered documents = Spec.model, from the XML event list; passed-over events between elements; both child orders in instances), C11_vocabulary, C11_partition (any split into "
+    explanation = ("C11_load / C11_load_gapped / C11_load_any_layout (loader on rendered documents = Spec.model, from the XML event list; passed-over events between elements; both child orders in instances), C11_vocabulary, C11_partition (any split into "
                    "files), C11_order_independent / C11_order_fails, C11_sorted (stable sort by sequence number), C11_first_wins, "
                    "C11_unknown_signal_skipped, C11_unknown_pdu_fails, C11_lookup; "
                    "the run loads real XML files with gather_fibex_data, feeds quick-xml's event dump of the same files to the "
